@@ -173,6 +173,12 @@ def _explore(name):
             add("resolves", f"{type(t).__name__}:{_label(k)}", f"E.dtype({k!r}) raised {t!r}")
             continue
         resolved[_label(k)] = t
+        if registered is None and not isinstance(k, str) and name in ("pandas", "polars") and hasattr(t, "type"):
+            # the resolved data type denotes the native parametrised dtype it was resolved from (unit, tz, categories, ... kept):
+            # two different native dtypes must not collapse into one pandera type
+            oks, same = _safe(lambda: bool(t.type == k))
+            if not oks or not same:
+                add("denotes_native", f"{type(t).__name__}:{_label(k)}", f"E.dtype({k!r}).type == {t.type!r}")
         ok2, t2 = _safe(E.dtype, t)
         if not ok2:
             add("idempotent", f"raises:{type(t).__name__}", f"E.dtype(E.dtype({k!r})) raised {t2!r}")
